@@ -1,4 +1,5 @@
 import RsslVerif.Model.Names
+import RsslVerif.Model.NamesEmit
 import RsslVerif.Spec.Names
 import RsslVerif.Gen.Reserved
 /-!
@@ -39,6 +40,41 @@ theorem reserved_complete :
 example : "SamplerState" ∈ Gen.Reserved.hlsl ∧ "SamplerState," ∉ Gen.Reserved.hlsl ∧
     "device" ∈ Gen.Reserved.msl ∧ "threadgroup" ∈ Gen.Reserved.msl := by
   decide +kernel
+
+/-! ## the identifiers the exporters introduce themselves (re-extracted from the generator sources on every run) -/
+
+/-- every fixed identifier the Metal / HLSL generator puts into a declaring position next to user entities (implicit
+parameters, stage locals, wrapper / stage struct / argument buffer names, the helper namespace), and every identifier
+constant of `names.rs`, is in that target's `RESERVED_NAMES`.  (The numbered `format!` identifiers — `set<i>`,
+`InlineDescriptor<n>`, `g_inlineDescriptor<n>`: `mslIntroducedPatterns`, `hlslIntroducedPatterns` — are **not** reserved:
+`generated_name_clash_witness`, known finding `generated-names-not-reserved`.) -/
+theorem introduced_names_reserved_as_modelled :
+    (∀ n ∈ Gen.Reserved.mslIntroduced, n ∈ Gen.Reserved.msl) ∧
+    (∀ n ∈ Gen.Reserved.mslFixed, n ∈ Gen.Reserved.msl) ∧
+    (∀ n ∈ Gen.Reserved.hlslIntroduced, n ∈ Gen.Reserved.hlsl) ∧
+    (∀ q ∈ Gen.Reserved.mslImplicitParams, q.2 ∈ Gen.Reserved.mslIntroduced) := by
+  decide +kernel
+
+/-- the implicit wave parameters of the model are the generator's: the identifiers (declaration in
+`generate_function_inner`, call argument, entry wrapper and the text printed for the intrinsic all agree — the translator
+refuses otherwise), which intrinsic asks for which parameter, and their order in front of the `Global` parameters
+(`required_globals.sort()` with the derived `Ord` of `enum ImplicitFunctionParameter`) -/
+theorem implicit_params_as_modelled :
+    Gen.Reserved.mslImplicitParams.lookup "ThreadIndexInSimdgroup" = some (Model.NamesEmit.waveName 0) ∧
+    Gen.Reserved.mslImplicitParams.lookup "ThreadsPerSimdgroup" = some (Model.NamesEmit.waveName 1) ∧
+    Gen.Reserved.mslImplicitIntrinsics =
+      [("WaveGetLaneCount", "ThreadsPerSimdgroup", Model.NamesEmit.waveName (Model.NamesEmit.waveCode true)),
+       ("WaveGetLaneIndex", "ThreadIndexInSimdgroup", Model.NamesEmit.waveName (Model.NamesEmit.waveCode false))] ∧
+    Gen.Reserved.mslImplicitOrder.take 2 = ["ThreadIndexInSimdgroup", "ThreadsPerSimdgroup"] ∧
+    Gen.Reserved.mslImplicitOrder.getLast? = some "Global" ∧
+    Gen.Reserved.fact_implicitSorted = true := by
+  decide +kernel
+
+/-- the two implicit parameter names are reserved on Metal (consequence of the two facts above, stated for the model's names) -/
+theorem wave_names_reserved : ∀ w, Model.NamesEmit.waveName w ∈ Gen.Reserved.msl := by
+  intro w
+  unfold Model.NamesEmit.waveName
+  split <;> decide +kernel
 
 /-! ## the former negation witnesses, now examples of the repaired behaviour (/repo 0dfd8dd, 6bac604) -/
 
